@@ -174,9 +174,25 @@ func copyDir(src, dst string) error {
 	return nil
 }
 
+// imageBase: crash images live for milliseconds and are opened several times each (every open of a leveldb directory
+// syncs a new table file and manifest): they are kept on a memory file system when there is one. The live database
+// stays where TMPDIR points.
+var imageBaseDir = func() string {
+	const shm = "/dev/shm"
+	if os.Getenv("ZVH_IMAGES_ON_DISK") == "" {
+		if d, err := os.MkdirTemp(shm, "zvprobe"); err == nil {
+			os.Remove(d)
+			return shm
+		}
+	}
+	return ""
+}()
+
+func imageBase() string { return imageBaseDir }
+
 // crashImage copies the live directory and cuts the active journal at `cut` bytes.
 func crashImage(live, journal string, cut int64) (string, error) {
-	img, err := os.MkdirTemp("", "zvimg")
+	img, err := os.MkdirTemp(imageBase(), "zvimg")
 	if err != nil {
 		return "", err
 	}
@@ -475,6 +491,17 @@ func crashSequence(c *Ctx, seq int) {
 					ops = append(ops, kvOp{k: k, v: v})
 				}
 				c.Hit("add-megabytes")
+			} else if c.R.Intn(4) == 0 {
+				// the size of a momentum's batch on a busy ledger (redo + undo + keys: 40-250 KiB): the journal record spans
+				// 2-8 blocks of the journal file, each handed to the file with its own write(2)
+				total := 12000 + c.R.Intn(70000)
+				for i := 0; total > 0; i++ {
+					v := make([]byte, 300+c.R.Intn(6000))
+					c.R.Read(v)
+					ops = append(ops, kvOp{k: append([]byte{4, 7}, byte(i>>8), byte(i)), v: v})
+					total -= len(v)
+				}
+				c.Hit("add-tens-of-kilobytes")
 			} else if c.R.Intn(10) == 0 {
 				// a few hundred kilobytes
 				for i := 0; i < 40+c.R.Intn(60); i++ {
@@ -619,6 +646,16 @@ func crashSequence(c *Ctx, seq int) {
 					}
 					c.Hit("competing-delivered")
 				}
+			}
+		}
+		// process death inside one of the operation's writes (between the write(2) calls of a journal record, short writes)
+		if na > nb && c.Args["torn"] != "off" {
+			start := int64(0)
+			if nb > 0 {
+				start = endsBefore[nb-1]
+			}
+			if !crashTornImages(c, seq, dir, journal, opDesc, start, endsAfter[na-1], before, after, redo) {
+				return
 			}
 		}
 	}
